@@ -641,6 +641,11 @@ func checkC03(c *Ctx, r *Report) {
 		ok2 := src.ok && src.lo >= tr.lo && src.hi <= tr.hi
 		r.check(ok2, "C03.R1", fmt.Sprintf("%s|convert to %s #%d", key, cv.Type().String(), nconv), posOf(c, cv), fmt.Sprintf("operand within [%d,%d] on every path", src.lo, src.hi),
 			"a length is converted to "+cv.Type().String()+" without a dominating bound: a record longer than 65535 octets is written with a truncated length field and the file's record boundaries and file length no longer match")
+		// ... and the guard refuses nothing the field can hold
+		if ok2 && ts == 2 {
+			r.check(src.hi >= tr.hi, "C03.R1", fmt.Sprintf("%s|bound of %s #%d is the range of the field", key, cv.Type().String(), nconv), posOf(c, cv), "every length the field can hold passes the guard",
+				fmt.Sprintf("the guard in front of the conversion lets only lengths up to %d through although the %s field holds up to %d: a record between these sizes - which the session reaches long before a new record is started - is refused, so every further update and the release of a long session fail after their credit control has run", src.hi, cv.Type().String(), tr.hi))
+		}
 	})
 	if nconv == 0 {
 		r.proven("C03.R1", key+"|no narrowing", c.rel(f.Pos()), "no narrowing conversion into a length field")
